@@ -1,0 +1,21 @@
+//go:build verif
+
+package webdav
+
+// Exports for the verification harness in /verif (build tag "verif" only).
+// They add no behaviour: each is a thin wrapper around an unexported function.
+
+// VerifLocalPath exposes LocalFileSystem.localPath.
+func VerifLocalPath(fs LocalFileSystem, name string) (string, error) {
+	return fs.localPath(name)
+}
+
+// VerifExternalPath exposes LocalFileSystem.externalPath.
+func VerifExternalPath(fs LocalFileSystem, name string) (string, error) {
+	return fs.externalPath(name)
+}
+
+// VerifCheckConditionalMatches exposes checkConditionalMatches.
+func VerifCheckConditionalMatches(fi *FileInfo, ifMatch, ifNoneMatch ConditionalMatch) error {
+	return checkConditionalMatches(fi, ifMatch, ifNoneMatch)
+}
